@@ -142,7 +142,7 @@ pub fn run_history(cfg: &RunCfg, h: &History) -> (Outcome, RunInfo) {
 
     // schema-changing statements whose damage shows up at later statements: once executed,
     // their tag is part of every later signature of the history ("sticky")
-    const STICKY: [&str; 4] = ["rename_indexed_column", "drop_column_with_rows", "truncate_table_with_rows", "add_column_to_table_with_rows"];
+    const STICKY: [&str; 5] = ["rename_indexed_column", "drop_column_with_rows", "truncate_table_with_rows", "add_column_to_table_with_rows", "reuses_dropped_table_name"];
     let mut sticky: Vec<&'static str> = Vec::new();
     if prefilled {
         sticky.push("multi_page_table");
